@@ -1,1 +1,41 @@
-(* C01 — theorems: see stream model (work in progress) *)
+(* C01 — lossless round trip through the stream API: the stream layer.
+   Models: Model/Writer.v (Write / processBlock / Close buffering) and Model/Reader.v
+   (Read / processBlock cursor and batch logic), both compared with the Go objects on random call
+   sequences at every run.  Block encoding/decoding is abstract here: the theorems assume the codec
+   contract "the block handed to the encoder is what the decoder returns" (exercised per codec by
+   C12 / C13 and end to end by the round trip search of this check). *)
+From Coq Require Import List NArith.
+From KV Require Import Model.Writer Model.Reader Proofs.WriterProofs Proofs.ReaderProofs.
+Import ListNotations.
+Open Scope N_scope.
+
+(* every byte written is handed to the encoding tasks exactly once, in order, in blocks of
+   blockSize bytes with ids 1,2,3,... — for EVERY partition into Write calls, job count 1.., and
+   EVERY value of the advisory size hint (absent, exact, smaller, larger) *)
+Theorem C01_writer_chunking : forall B jobs hint (ws : list (list N)), 0 < B -> 0 < jobs ->
+  exists s1 s2, do_writes B jobs hint (init_w jobs) ws = (s1, true) /\
+    w_close B jobs hint (fun _ => false) s1 false false = (s2, false) /\
+    w_closed s2 = true /\
+    map snd (w_out s2) = chunks B (concat ws) /\
+    map fst (w_out s2) = map (fun i => 1 + N.of_nat i) (seq 0 (length (w_out s2))).
+Proof. intros B jobs hint ws HB HJ. exact (writer_chunking B jobs hint HB HJ ws). Qed.
+Print Assumptions C01_writer_chunking.
+
+(* Writer then Reader: whatever the Write partition, the job counts and hints on both sides and
+   the sequence of Read lengths (0 included), the caller reads back exactly the data, then
+   end-of-stream *)
+Theorem C01_stream_roundtrip : forall B jw hw jr hr (ws : list (list N)) (ns : list N),
+  0 < B -> 0 < jw -> 0 < jr ->
+  exists s1 s2, do_writes B jw hw (init_w jw) ws = (s1, true) /\
+    w_close B jw hw (fun _ => false) s1 false false = (s2, false) /\
+    fst (do_reads B jr hr (init_r (map FData (map snd (w_out s2)) ++ [FEnd])) ns) = spec_reads (concat ws) ns.
+Proof. intros B jw hw jr hr ws ns HB. exact (stream_roundtrip_model B HB jw hw jr hr ws ns). Qed.
+Print Assumptions C01_stream_roundtrip.
+
+Example C01_witness :
+  let ws := [[1;2;3]; []; [4;5;6;7;8;9;10]; [11]] in
+  match do_writes 4 3 1 (init_w 3) ws with
+  | (s1, true) => map snd (w_out (fst (w_close 4 3 1 (fun _ => false) s1 false false))) = [[1;2;3;4];[5;6;7;8];[9;10;11]]
+  | _ => False
+  end.
+Proof. vm_compute. reflexivity. Qed.
